@@ -362,7 +362,7 @@ size_t dataLength, double realPrecision, size_t *outSize, uint64_t valueRangeSiz
 	//TODO: return bytes....
 	convertTDPStoFlatBytes_int(tdps, newByteData, outSize);
 	if(*outSize > dataLength*sizeof(uint64_t))
-		SZ_compress_args_uint64_StoreOriData(oriData, dataLength+2, tdps, newByteData, outSize);
+		SZ_compress_args_uint64_StoreOriData(oriData, dataLength, tdps, newByteData, outSize);
 	free_TightDataPointStorageI(tdps);
 }
 
